@@ -130,7 +130,7 @@ def _variants():
 
     # name -> (dialect factory, grammar, keyword set key, does the DBAPI un-double %%)
     def maria():
-        d = mysqldb.dialect(is_mariadb=True) if False else mariadb.MariaDBDialect()
+        d = mariadb.MariaDBDialect()
         d.is_mariadb = True
         d.identifier_preparer._set_mariadb()
         return d
@@ -142,8 +142,8 @@ def _variants():
         "mysql+mysqldb": (mysqldb.dialect, "mysql", "mysql", True),
         "mysql+mysqlconnector": (mysqlconnector.dialect, "mysql", "mysql", False),
         "mariadb": (maria, "mysql", "mariadb", True),
-        "mssql+pyodbc": (pyodbc.dialect, "mssql", "mssql", False),
-        "mssql+pymssql": (pymssql.dialect, "mssql", "mssql", False),
+        "mssql+pyodbc": (lambda: pyodbc.dialect(paramstyle="qmark"), "mssql", "mssql", False),
+        "mssql+pymssql": (lambda: pymssql.dialect(paramstyle="pyformat"), "mssql", "mssql", False),
         "oracle": (oracle.dialect, "oracle", "oracle", False),
         "sqlite": (sqlite.dialect, "sqlite", "sqlite", False),
         "default": (default.DefaultDialect, "postgresql", None, False),
